@@ -149,6 +149,39 @@ Lemma lor_shiftl_be b0 n rest :
   be_dec rest < 2 ^ n -> N.lor (N.shiftl b0 n) (be_dec rest) = b0 * 2 ^ n + be_dec rest.
 Proof. apply lor_shiftl_add. Qed.
 
+(** Linear-time variants used where the models are *run* on long strings (2048-bit moduli): Horner decoding and
+    least-significant-first encoding with shifts; each is proved equal to the specification form above. *)
+Definition be_dec_h (l : list byte) : N := fold_left (fun acc b => acc * 256 + b2n b) l 0.
+Fixpoint be_enc_acc (k : nat) (v : N) (acc : list byte) : list byte :=
+  match k with O => acc | S k' => be_enc_acc k' (N.shiftr v 8) (n2b v :: acc) end.
+Definition be_enc_f (k : nat) (v : N) : list byte := be_enc_acc k v [].
+
+Lemma be_dec_h_gen l acc :
+  fold_left (fun acc b => acc * 256 + b2n b) l acc = acc * 256 ^ N.of_nat (length l) + be_dec l.
+Proof.
+  revert acc. induction l as [|b t IH]; intro acc; cbn [fold_left be_dec length].
+  - cbn. lia.
+  - rewrite IH, Nat2N.inj_succ, N.pow_succ_r'. lia.
+Qed.
+Lemma be_dec_h_eq l : be_dec_h l = be_dec l.
+Proof. unfold be_dec_h. rewrite be_dec_h_gen. lia. Qed.
+
+Lemma be_enc_snoc k v : be_enc (S k) v = be_enc k (v / 256) ++ [n2b v].
+Proof.
+  induction k as [|k IH].
+  - cbn [be_enc app]. change (256 ^ N.of_nat 0) with 1. now rewrite N.div_1_r.
+  - change (be_enc (S (S k)) v) with (n2b (v / 256 ^ N.of_nat (S k)) :: be_enc (S k) v).
+    rewrite IH. cbn [be_enc app]. f_equal. f_equal.
+    rewrite Nat2N.inj_succ, N.pow_succ_r', N.div_div by (try apply N.pow_nonzero; lia). reflexivity.
+Qed.
+Lemma be_enc_acc_eq k v acc : be_enc_acc k v acc = be_enc k v ++ acc.
+Proof.
+  revert v acc. induction k as [|k IH]; intros v acc; [reflexivity|].
+  cbn [be_enc_acc]. rewrite IH, N.shiftr_div_pow2, be_enc_snoc, <- app_assoc. reflexivity.
+Qed.
+Lemma be_enc_f_eq k v : be_enc_f k v = be_enc k v.
+Proof. unfold be_enc_f. now rewrite be_enc_acc_eq, app_nil_r. Qed.
+
 Definition repeat_byte (b : byte) (n : nat) : list byte := repeat b n.
 
 Close Scope N_scope.
